@@ -47,6 +47,14 @@ func modelAgreement(t *relTotals, stream string, o *evalOutcome) bool {
 		t.violation(stream, "evaluation did not complete normally: "+o.c.Go.Outcome+" "+o.c.Go.Panic, map[string]any{"case": o.c})
 		return false
 	}
+	if !o.c.Go.EventsOK {
+		t.violation(stream, "a prerequisite event did not carry the evaluated context or the stored prerequisite flag", map[string]any{"case": o.c})
+		return false
+	}
+	if ok, present := o.pred["preOK"].(bool); present && !ok && t.pid == "C14" {
+		t.violation(stream, "the preprocessed tables the real code built differ from what preprocessing the same data yields in the model", map[string]any{"case": o.c})
+		return false
+	}
 	if canon(full(o.c.Go)) != canon(full(o.model)) {
 		t.dis = append(t.dis, map[string]any{"property": t.pid, "kind": "correspondence", "stream": stream,
 			"message": "the real code and the model differ", "go": json.RawMessage(canon(full(o.c.Go))), "model_out": json.RawMessage(canon(full(o.model))), "case": o.c})
@@ -178,9 +186,15 @@ func neverMatchRule() WFlagRule {
 
 func shuffled[T any](r *rng, xs []T) []T {
 	out := append([]T{}, xs...)
+	moved := false
 	for i := len(out) - 1; i > 0; i-- {
 		j := r.intn(i + 1)
 		out[i], out[j] = out[j], out[i]
+		moved = moved || i != j
+	}
+	if !moved && len(out) > 1 {
+		// never the identity: rotate by one instead
+		out = append(out[1:], out[0])
 	}
 	return out
 }
@@ -359,11 +373,30 @@ var perturbations = []perturbation{
 	}, func(a, b *WObs, ac, bc *EvalCase) string {
 		// only well-formed clauses are covered: if either side reports an error, the claim does
 		// not apply. Lookup order naturally follows clause order; compare result and events.
-		if isErr(a) || isErr(b) {
-			return ""
+		if isErr(a) && isErr(b) {
+			return "" // which malformed clause is met first may legitimately change the message, not the fact
+		}
+		if isErr(a) != isErr(b) {
+			// legitimate only when a malformed clause sits behind one that decides the rule
+			for i := range ac.Flag.Rules {
+				for _, cl := range ac.Flag.Rules[i].Clauses {
+					if cl.Attr.E != "" || (cl.Attr.Ctor == "" && cl.Op != "segmentMatch") || cl.Op == "segmentMatch" {
+						return ""
+					}
+				}
+			}
+			return "reordering well-formed clauses turned a result into an error (or back)"
 		}
 		if canon([]any{a.Result, a.Events}) != canon([]any{b.Result, b.Events}) {
 			return "result changed"
+		}
+		sortedSet := func(xs []string) string {
+			ys := append([]string{}, xs...)
+			sortStrings(ys)
+			return canon(ys)
+		}
+		if sortedSet(a.BSQueries) != sortedSet(b.BSQueries) && canon(a.SegLookups) == canon(b.SegLookups) {
+			return "the big-segment store was queried differently although the same segments were looked up"
 		}
 		return ""
 	}},
@@ -385,6 +418,9 @@ var perturbations = []perturbation{
 	{"insert-dead-rule", func(r *rng, c *EvalCase) (*EvalCase, bool) {
 		n := cloneCase(c)
 		pos := r.intn(len(n.Flag.Rules) + 1)
+		if r.bool() {
+			pos = 0 // in front of every rule, hence in front of the deciding one whenever there is one
+		}
 		rules := append([]WFlagRule{}, n.Flag.Rules[:pos]...)
 		rules = append(rules, neverMatchRule())
 		rules = append(rules, n.Flag.Rules[pos:]...)
@@ -483,7 +519,13 @@ func onlyBSSDiffers(a, b *WObs) bool {
 		return false
 	}
 	x.Result.Reason.BSS, y.Result.Reason.BSS = nil, nil
-	return canon([]any{x.Result, x.Events}) == canon([]any{y.Result, y.Events})
+	if canon([]any{x.Result, x.Events}) != canon([]any{y.Result, y.Events}) {
+		return false
+	}
+	// the finding: the reordering changed WHICH segments were reached before a clause decided the
+	// rule (so one side met an unbounded segment the other never looked at). With identical
+	// lookups, queries and membership checks a different status is not that finding.
+	return canon([]any{a.SegLookups, a.BSQueries, a.MemChecks}) != canon([]any{b.SegLookups, b.BSQueries, b.MemChecks})
 }
 
 // ---------- C12 ----------
